@@ -183,6 +183,8 @@ class Mix:
                 lambda: [S("dotimes"), [S("i"), 4], [S("down-then-fail"), [S("-"), r.randrange(1, 3), S("i")]]],
                 lambda: [S("let"), [[S("v"), [S("down-then-fail"), 3]]], [S("list"), S("v"), [S("down-then-fail"), -2]]],
                 lambda: [S("assert"), [S(r.choice(["even-p", "odd-p"])), r.randrange(1, 4)]],
+                lambda: [S("add"), [S("down-then-fail"), 2], S(r.choice(["lib:no-such-name", "nopkg:x", "lisp:nope"]))],
+                lambda: [S("list"), [S("list"), 1, 2], S("g1"), S(r.choice(["lib:no-such-name", "nopkg:x"])), 4],
                 lambda: [S("count-down"), 2, [S("list"), [S("down-then-fail"), r.choice([-1, -2])]]],
                 lambda: [S("cond"), [[S("="), 1, [S("down-then-fail"), 2]], 5], [[S("="), 0, [S("down-then-fail"), -2]], 6], [S(":else"), 7]],
             ])()
